@@ -63,11 +63,12 @@ class FieldReader:
             d = self.src.read(3)
             value = (d[0] << 16) + (d[1] << 8) + d[2]
         elif size == 'S0':
-            value = ''
+            chars = []
             d = self.src.read(1)
             while ord(d) != 0:
-                value += str(d, 'utf-8')
+                chars.append(d)
                 d = self.src.read(1)
+            value = str(b''.join(chars), 'utf-8')
             if self.log and self.log.isEnabledFor(logging.DEBUG):
                 self.log.debug('%s: read %s size=%d pos=%d value="%s"',
                                self.name, field,
